@@ -232,14 +232,17 @@ func runOpenOwnedRedir(p *core.Program, r *core.Report, rule string) {
 		return
 	}
 	found := false
-	core.Instrs(exec, func(ins ssa.Instruction) {
-		if c, ok := ins.(*ssa.Call); ok {
-			if callee := c.Call.StaticCallee(); callee != nil && callee.String() == "os.OpenFile" {
-				found = true
-				checkOpenFileOwned(p, r, rule, exec, c)
+	for _, fn := range redirFamily(p) {
+		fn := fn
+		core.Instrs(fn, func(ins ssa.Instruction) {
+			if c, ok := ins.(*ssa.Call); ok {
+				if callee := c.Call.StaticCallee(); callee != nil && callee.String() == "os.OpenFile" {
+					found = true
+					checkOpenFileOwned(p, r, rule, fn, c)
+				}
 			}
-		}
-	})
+		})
+	}
 	r.Anchor(rule, "os.OpenFile in redirOp.exec", found)
 }
 
@@ -417,20 +420,40 @@ func runReplaceCloses(p *core.Program, r *core.Report, rule string) {
 		// the destination slot in this function: the result of
 		// growAccess(&fm.ports, dst), or a **Port parameter handed down
 		var slots []ssa.Value
+		isSlotType := func(t types.Type) bool {
+			pp, ok := t.(*types.Pointer)
+			if !ok {
+				return false
+			}
+			ptr, ok := pp.Elem().(*types.Pointer)
+			return ok && core.IsNamed(ptr.Elem(), pkgEval, "Port")
+		}
 		core.Instrs(fn, func(ins ssa.Instruction) {
 			if c, ok := ins.(*ssa.Call); ok {
-				if callee := c.Call.StaticCallee(); callee != nil && core.Origin(callee).Name() == "growAccess" && strings.Contains(c.Type().String(), "Port") && !strings.Contains(c.Type().String(), "formOwnedPort") {
+				if callee := c.Call.StaticCallee(); callee != nil && core.Origin(callee).Name() == "growAccess" && isSlotType(c.Type()) {
 					slots = append(slots, c)
+				}
+			}
+			// the slot kept in a field of a struct that describes the
+			// destination (handed down by value or by pointer)
+			if v, ok := ins.(ssa.Value); ok && isSlotType(v.Type()) {
+				switch x := ins.(type) {
+				case *ssa.Field:
+					slots = append(slots, v)
+				case *ssa.UnOp:
+					if _, isFA := x.X.(*ssa.FieldAddr); isFA && x.Op == token.MUL {
+						slots = append(slots, v)
+					}
 				}
 			}
 		})
 		for _, prm := range fn.Params {
-			if strings.HasSuffix(prm.Type().String(), "**src.elv.sh/pkg/eval.Port") {
+			if isSlotType(prm.Type()) {
 				slots = append(slots, prm)
 			}
 		}
 		for _, fv := range fn.FreeVars {
-			if strings.HasSuffix(fv.Type().String(), "***src.elv.sh/pkg/eval.Port") {
+			if pt, ok := fv.Type().(*types.Pointer); ok && isSlotType(pt.Elem()) {
 				// a closure over the slot variable: its stores go through a load of the cell
 				slots = append(slots, fv)
 			}
